@@ -545,6 +545,17 @@ def protocol_rule(ctx):
         run(f"[{L}] constant matrix @ vector field", lambda: cm @ v, contract(cm, False, v, True, 1), True, f"matmul:c21:{L}")
         run(f"[{L}] constant vector @ matrix field", lambda: cv @ m, contract(cv, False, m, True, 1), True, f"matmul:c12:{L}")
         run(f"[{L}] constant vector @ vector field", lambda: cv @ v, contract(cv, False, v, True, 1), True, f"matmul:c11:{L}")
+        # complex-valued fields (forms may be complex): the products are plain contractions, nothing is conjugated
+        from ..xeval import IMAG as _I
+        from ..femodel import FeV as _FeV
+
+        vc = _FeV(v.shape, [a + _I * b for a, b in zip(v.data, _mk("vi", v.shape).data)])
+        mc = _FeV(m.shape, [a + _I * b for a, b in zip(m.data, _mk("mi", m.shape).data)])
+        run(f"[{L}] complex vector field @ vector field", lambda: vc @ w, contract(vc, True, w, True, 1), True, f"matmul:11c:{L}")
+        run(f"[{L}] complex vector field @ complex vector field", lambda: vc @ vc, contract(vc, True, vc, True, 1), True, f"matmul:11cc:{L}")
+        run(f"[{L}] complex vector field @ constant vector", lambda: vc @ cv, contract(vc, True, cv, False, 1), True, f"matmul:1c1c:{L}")
+        run(f"[{L}] complex matrix field @ complex vector field", lambda: mc @ vc, contract(mc, True, vc, True, 1), True, f"matmul:21cc:{L}")
+        run(f"[{L}] complex vector field .dot(vector field)", lambda: M.attr_hook(vc, "dot")(w), contract(vc, True, w, True, 1), True, f"dot:11c:{L}")
         # every rank pair of dot / ddot, second operand a field or a constant tensor
         T_by_rank = {1: T1, 2: T2, 3: (d, d, d), 4: T4}
         for ra in (1, 2, 3, 4):
